@@ -28,7 +28,8 @@ def gen_shape(rng, maxpix=48, ndim=None):
 def gen_values(rng, n, shape, big=False):
     """integer pixel values in model units with a chosen tie structure; returns (k list, kind)"""
     kind = rng.choice(['perm', 'perm', 'small', 'small', 'plateau', 'nested', 'chain', 'checker', 'random', 'two',
-                       'perm', 'small', 'plateau', 'nested', 'random', 'neardelta', 'bigint' if big else 'random'])
+                       'perm', 'small', 'plateau', 'nested', 'random', 'neardelta', 'bigint' if big else 'random',
+                       'fullrange', 'decimal' if big else 'small'])
     if kind == 'perm':
         k = list(range(1, n + 1))
         rng.shuffle(k)
@@ -55,6 +56,17 @@ def gen_values(rng, n, shape, big=False):
         # heights a hair below / at / above a large min_delta (relative differences of 1e-6)
         M = 10 ** 6
         k = [rng.choice([0, 0, 1, M - 1, M, M + 1, 2 * M - 1, 2 * M, 2 * M + 1]) for _ in range(n)]
+        return k, kind
+    elif kind == 'fullrange':
+        # integers spread over the whole range of a narrow signed dtype: differences exceed the dtype
+        lo, hi = rng.choice([(-128, 127), (-32768, 32767), (-2 ** 31, 2 ** 31 - 1)])
+        k = [rng.choice([lo, hi, lo + rng.randint(0, 40), hi - rng.randint(0, 40), rng.randint(lo, hi)]) for _ in range(n)]
+        return k, kind
+    elif kind == 'decimal':
+        # decimal fractions in [1, 2): not dyadic, but differences of two of them are exact in float64 (Sterbenz);
+        # in model units of 2**-60 every value and every such difference is an exact integer
+        from fractions import Fraction
+        k = [int(Fraction(float(1 + rng.randint(0, 9) / 10.0 + rng.choice([0, 0, 0.05, 0.01]))) * 2 ** 60) for _ in range(n)]
         return k, kind
     elif kind == 'bigint':
         # integers beyond 2**53: not representable in float64
@@ -132,8 +144,10 @@ def gen_compute_case(rng, maxpix=48, force=None):
         n *= s
     k, kind = gen_values(rng, n, shape, big=bool(force.get('big')))
     fb = force.get('fb', rng.choice([0, 0, 0, 0, 1, 2, 4, 30, 40]))
-    if kind in ('neardelta', 'bigint'):
+    if kind in ('neardelta', 'bigint', 'fullrange'):
         fb = 0
+    if kind == 'decimal':
+        fb = 60
     has_nan = False
     if fb > 0 or rng.random() < 0.3:
         if rng.random() < 0.4 and n > 1:
@@ -143,12 +157,26 @@ def gen_compute_case(rng, maxpix=48, force=None):
     if all(x is None for x in k):
         k[0] = 1
     dtype = force.get('dtype') or pick_dtype(rng, k, fb, has_nan)
+    if kind == 'fullrange' and not force.get('dtype'):
+        k = [x if x is not None else 0 for x in k]
+        hi_ = max(abs(x) for x in k)
+        dtype = 'int8' if hi_ <= 128 else 'int16' if hi_ <= 32768 else 'int32'
+    if kind == 'decimal':
+        dtype = 'float64'
     if kind == 'bigint' and not force.get('dtype'):
         dtype = 'int64'
         k = [x if x is not None else 2 ** 60 for x in k]
     minv, mind, minn = gen_params(rng, k, n, fb)
     if kind == 'bigint' and minv != 'min' and minv[1] != 1:
         minv = [minv[0] // minv[1], 1]      # a float threshold cannot be compared exactly with int64 beyond 2**53
+    if kind == 'fullrange':
+        vals_ = sorted(set(k))
+        minv = rng.choice(['min', [vals_[0], 1], [vals_[0] - 1, 1] if vals_[0] > -2 ** 31 else 'min'])
+        mind = rng.choice([0, 0, 1, 100, 200, 40000, 2 ** 31])
+    if kind == 'decimal':
+        from fractions import Fraction
+        mind = int(Fraction(float(rng.choice([0.1, 0.1, 0.2, 0.3, 0.05, 0.15]))) * 2 ** 60) if rng.random() < 0.8 else 0
+        minv = rng.choice([[0, 1], 'min', [2 ** 60, 1]])
     if kind == 'neardelta':
         mind = rng.choice([10 ** 6, 10 ** 6, 2 * 10 ** 6, 0])
         minv = rng.choice([[-1, 1], [0, 1], 'min'])
@@ -177,7 +205,10 @@ def gen_compute_case(rng, maxpix=48, force=None):
         case['k'] = [x - lo for x in k]
     case['reuse'] = rng.random() < 0.3
     if 'layout' not in force:
-        case['layout'] = rng.choices(['C', 'F', 'strided', 'readonly'], weights=[70, 15, 10, 5])[0]
+        case['layout'] = rng.choices(['C', 'F', 'strided', 'readonly', 'bigendian'], weights=[66, 14, 9, 5, 6])[0]
+    if kind in ('fullrange', 'decimal'):
+        # sums: int32 sums leave the dtype / float sums of decimals round -- not the subject of these cases
+        case['crits'] = [c for c in case['crits'] if c[0] in ('seeds', 'npixacc')]
     if kind == 'bigint':
         # sums of 2**60 leave int64; the harness hands value thresholds over as floats
         case['crits'] = [c for c in case['crits'] if c[0] in ('seeds', 'npixacc')]
